@@ -49,8 +49,8 @@ type Prog struct {
 	constTables  map[*ssa.Global]map[int64]*ssa.Const
 	notTable     map[*ssa.Global]bool
 	roles        *Roles
-	normalised   int // functions whose higher-order helper sites were inlined in place (normalise.go)
-	consumed     map[*ssa.Function]bool // helpers without remaining call sites after normalisation
+	normalised   int                      // functions whose higher-order helper sites were inlined in place (normalise.go)
+	consumed     map[*ssa.Function]bool   // helpers without remaining call sites after normalisation
 	outlined     map[string]*ssa.Function // per package: the step-back primitive given a name by the cursor model
 }
 
